@@ -260,6 +260,33 @@ for _i in range(1, 9):
     setattr(ScriptedProcess, 's%d' % _i, _mk_step('s%d' % _i))
 
 
+def _mk_sync_step(name):
+    def step(self, *args, **kwargs):
+        # a plain (non-async) step function: the script has no awaits, so its interpreter finishes at the first send
+        coro = self._interp(name, args, kwargs)
+        try:
+            coro.send(None)
+        except StopIteration as e:
+            return e.value
+        coro.close()
+        raise RuntimeError('a synchronous step tried to await')
+    step.__name__ = name
+    return step
+
+
+class ScriptedSyncProcess(ScriptedProcess):
+    """The same process with plain `def` step functions (for programs whose steps never await): plumpy wraps those itself."""
+    run = _mk_sync_step('run')
+
+
+for _i in range(1, 9):
+    setattr(ScriptedSyncProcess, 's%d' % _i, _mk_sync_step('s%d' % _i))
+
+
+def is_sync_program(prog):
+    return all(a[0] not in ('yield', 'await') for s in prog.values() for a in s['actions'])
+
+
 def fresh_process_class():
     """A new subclass per output spec (the spec is per class and out() mutates it)."""
     fresh_process_class.n += 1
